@@ -62,10 +62,12 @@ class CachingLoaderMixin(ABC, _CachingLoaderProtocol):
         thread_safe: bool = False,
     ):
         self.auto_reload = auto_reload
-        self.cache = (
-            ThreadSafeLRUCache[str, "Template"](capacity=capacity)
+        # Not `LRUCache[str, "Template"](...)`. A subscripted class leaves a forward
+        # reference on the instance, and that can't be pickled.
+        self.cache: LRUCache[str, Template] = (
+            ThreadSafeLRUCache(capacity=capacity)
             if thread_safe
-            else LRUCache[str, "Template"](capacity=capacity)
+            else LRUCache(capacity=capacity)
         )
         self.namespace_key = namespace_key
 
